@@ -1248,7 +1248,7 @@ theorem beta_factors_prod [LinearOrder K] [IsStrictOrderedRing K] (hS : S.Sound)
 end factors
 
 /-- WHATEVER ORDER the factors are multiplied in: when `robustFactors` holds, the product of every sub-collection
-of the factors (any sub-multiset, in any order) lies in `[64·2⁻¹⁰⁷⁴, 2¹⁰⁰⁰]` — every intermediate value of the
+of the factors (any sub-multiset, in any order) lies in `[8·2⁻¹⁰⁷⁴, 2¹⁰⁰⁰]` — every intermediate value of the
 evaluation is a positive finite double with room to spare, and so is the density itself -/
 theorem robustFactors_spec (fs l : List Rat) (hr : robustFactors fs = true) (hl : l.Subperm fs) :
     tailLo ≤ l.prod ∧ l.prod ≤ tailHi := by
